@@ -1425,6 +1425,7 @@ func (env *LEnv) specialOpCall(ctx context.Context, fun, args *LVal) *LVal {
 	// operators like ``let'' define a lexical scope which cannot be collapsed
 	// by tail-recursion-optimization.
 
+	locSaved := false
 callf:
 	r := env.call(ctx, fun, args)
 	if r == nil {
@@ -1455,7 +1456,15 @@ callf:
 			top.Terminal = false
 			if r.source != nil {
 				// the resumed call is the tail-call expression, not the call
-				// that first pushed this frame
+				// that first pushed this frame.  The caller's location is put
+				// back on return: a builtin that calls back into lisp several
+				// times from one environment (map, foldl, ...) pushes every
+				// callee frame at env.loc.
+				if !locSaved {
+					locSaved = true
+					saved := env.loc
+					defer func() { env.loc = saved }()
+				}
 				env.loc = r.source
 			}
 			goto callf
@@ -1579,6 +1588,7 @@ func (env *LEnv) funCall(ctx context.Context, fun, args *LVal) *LVal {
 		return markTailRec(npop, fun, args, env.loc)
 	}
 
+	locSaved := false
 callf:
 	r := env.call(ctx, fun, args)
 	if r == nil {
@@ -1610,7 +1620,15 @@ callf:
 			top.Terminal = false
 			if r.source != nil {
 				// the resumed call is the tail-call expression, not the call
-				// that first pushed this frame
+				// that first pushed this frame.  The caller's location is put
+				// back on return: a builtin that calls back into lisp several
+				// times from one environment (map, foldl, ...) pushes every
+				// callee frame at env.loc.
+				if !locSaved {
+					locSaved = true
+					saved := env.loc
+					defer func() { env.loc = saved }()
+				}
 				env.loc = r.source
 			}
 			goto callf
